@@ -30,4 +30,4 @@ Deliverables, written to /tmp/seedout/{pid}/a/ and /tmp/seedout/{pid}/b/ (create
   patch.diff   - output of `git -C {wt} diff` for that change alone (relative to the unchanged tree)
   demo.py      - the demonstration script (runnable as: cd <tree> && PYTHONPATH=<tree> /venv/bin/python demo.py)
   notes.txt    - 3-6 lines: what the change is, what is needed for it to manifest, and the last line of the pytest run with the change applied
-Work on one change at a time: make change a, run the full test suite, run the demo with and without it (use `git -C {wt} stash` / `git -C {wt} checkout -- .` to switch), save the deliverables, then revert with `git -C {wt} checkout -- .` and do change b. Leave the worktree clean (no modifications) at the end. Do not commit anything. Reply with a short summary of the two changes.""")
+Work on one change at a time: make change a, run the full test suite, run the demo with and without it (never use git stash - the stash is shared between worktrees; switch with `git -C {wt} diff > file`, `git -C {wt} checkout -- .` and `git -C {wt} apply file`), save the deliverables, then revert with `git -C {wt} checkout -- .` and do change b. Leave the worktree clean (no modifications) at the end. Do not commit anything. Reply with a short summary of the two changes.""")
